@@ -797,6 +797,9 @@ fn run_c06(p: &[f64]) -> Option<String> {
         let at = |x: f64| polyval_dd(&c, x);
         let (v0, m0) = at(fx);
         if !(v0.sub(DD::from(fy)).abs().to_f64() <= 16.0 * U * m0.max(fy.abs()) + 1e-300) { return Some(format!("segment {} at its left knot ({:e},{:e}) evaluates to {:e}", i, fx, fy, v0.to_f64())); }
+        if dx >= f64::EPSILON && fy != ny && ((ny - fy) / dx).abs() > 1e-290 && c[1] == 0.0 {
+            return Some(format!("segment {} is at least machine epsilon wide ({:e}) and its knots differ in ordinate ({:e} vs {:e}) but its slope is 0", i, dx, fy, ny));
+        }
         if dx >= f64::EPSILON {
             let (v1, m1) = at(nx);
             let cond = ((fx.abs().max(nx.abs())) / dx).max(1.0);
